@@ -9,14 +9,19 @@ HEADER = """From Bingo Require Import Lib.Key Model.Converge.
 From Coq Require Import ZArith QArith List.
 Import ListNotations.
 Definition s_init (b : key) : st := mkSt 0 0 0 None b 0 0 0 0 [].
-Fixpoint run_calls (s : st) (calls : list (cfg * list world)) : list Z :=
+(* between two calls the caller may change the population without evolving it (inject a seed individual, regenerate):
+   the optimizer's true best fitness changes while its generational age does not *)
+Definition set_world_best (s : st) (b : key) : st :=
+  mkSt (age s) (start_age s) (improve_age s) (best s) b (cur_evals s) (now s) (t_start s) (last_check s) (speeds s).
+Fixpoint run_calls (s : st) (calls : list (cfg * list world * option key)) : list Z :=
   match calls with
   | [] => []
-  | (c, tape) :: r =>
+  | (c, tape, pre) :: r =>
+    let s := match pre with Some b => set_world_best s b | None => s end in
     let o := euc c s tape in
     enc_result o ++ (match o with Ok (_, s', _) => run_calls s' r | _ => [] end)
   end.
-Definition runner (c : key * list (cfg * list world)) : list Z := run_calls (s_init (fst c)) (snd c)."""
+Definition runner (c : key * list (cfg * list world * option key)) : list Z := run_calls (s_init (fst c)) (snd c)."""
 RUNNER = "runner"
 
 DURS = [Fraction(1, 8), Fraction(1, 4), Fraction(1, 2), Fraction(1), Fraction(2)]
@@ -25,7 +30,7 @@ DURS = [Fraction(1, 8), Fraction(1, 4), Fraction(1, 2), Fraction(1), Fraction(2)
 def gen_case(rng):
     calls = []
     evals = 0
-    for _ in range(rng.choice([1, 1, 1, 2, 3])):
+    for _ in range(rng.choice([1, 1, 2, 2, 3])):
         mx, mn, fr = rng.randint(1, 8), rng.choice([0, 0, 1, 2, 3, 5, 6]), rng.choice([1, 1, 2, 3])
         cfg = dict(max_gen=mx, threshold=rng.choice([0, 2, 5]), freq=fr, min_gen=mn,
                    # limits of zero are limits like any other: already met at entry
@@ -44,7 +49,12 @@ def gen_case(rng):
             if mode == "nan" and rng.random() < 0.6 or rng.random() < 0.05:
                 b = None
             tape.append([str(rng.choice(DURS)), b, evals])
-        calls.append(dict(cfg=cfg, tape=tape))
+        call = dict(cfg=cfg, tape=tape)
+        if calls and rng.random() < 0.5:
+            # the population was changed by hand since the previous call (a seed individual injected, the population regenerated):
+            # a new best fitness - often one that already meets the threshold - at an unchanged generational age
+            call["pre_best"] = rng.choice([0, 0, 1, 2, 5, 9, "nan"])
+        calls.append(call)
     case = dict(init_best=rng.choice([None, 4, 7, 1]), calls=calls)
     if rng.random() < 0.08:
         # time also passes BEFORE the first check of a call (the entry evaluation of a fresh population can be slow): outside
@@ -81,7 +91,10 @@ def coq_case(c):
             "None" if g["max_time"] is None else "(Some %s)" % cq(g["max_time"]))
 
     def call(cl):
-        return "(%s, %s)" % (cfgt(cl["cfg"]), vlib.clist(cl["tape"], lambda w: "(mkW %s %s %d)" % (cq(w[0]), vlib.copt(w[1]), w[2])))
+        pre = cl.get("pre_best")
+        pre_s = "None" if pre is None else ("(Some None)" if pre == "nan" else "(Some (Some %d))" % pre)
+        return "(%s, %s, %s)" % (cfgt(cl["cfg"]), vlib.clist(cl["tape"], lambda w: "(mkW %s %s %d)" % (cq(w[0]), vlib.copt(w[1]), w[2])),
+                                 pre_s)
     return "(%s, %s)" % (vlib.copt(c["init_best"]), vlib.clist(c["calls"], call))
 
 
@@ -183,6 +196,8 @@ def impl_main(payload):
         for cl in c["calls"]:
             g = cl["cfg"]
             opt.cfg, opt.tape, opt.evolves = g, [list(w) for w in cl["tape"]], []
+            if cl.get("pre_best") is not None:
+                opt.cur_best = fl(None if cl["pre_best"] == "nan" else cl["pre_best"])
             opt.call_start_age, opt.t0 = opt.generational_age, Clock.t
             opt.entry_dt = c.get("entry_dt")
             if opt.indep_last is None:
